@@ -65,6 +65,9 @@ func c12Run(sc c12Scenario, prefix []int, sigs []string, ready *grpc.ClientConn)
 	s.NoClockDeviation = sc.Sync
 	s.ArriveYield = sc.Sync
 	loose := sc.Explore && !sc.Sync // timers may land before enabled threads: only the schedule-independent part of the oracle
+	if strings.ContainsAny(sc.Script, "CIR") {
+		loose = true // a response lacking a mandatory IE: the statement does not say whether it counts as an answer; no crash, no wedge
+	}
 	start := s.Now
 	var fab *vnet.Fabric
 	var node *PFCPNode
@@ -101,6 +104,15 @@ func c12Run(sc c12Scenario, prefix []int, sigs []string, ready *grpc.ClientConn)
 				return (&vMsg{Type: message.MsgTypeAssociationSetupResponse, Seq: seq, IEs: []*vIE{vNodeIDIE(c.node), vFromIE(ie.NewCause(ie.CauseRequestAccepted)), vFromIE(ie.NewRecoveryTimeStamp(time.Unix(1600000000, 0)))}}).marshal()
 			}
 			return nil
+		}
+		// a response with the right sequence number that lacks one mandatory IE (0 Cause, 1 Node ID, 2 Recovery Time Stamp)
+		respondWithout := func(d *vResp, drop int) []byte {
+			if d.Type == message.MsgTypeHeartbeatRequest {
+				return (&vMsg{Type: message.MsgTypeHeartbeatResponse, Seq: d.Seq}).marshal()
+			}
+			ies := []*vIE{vFromIE(ie.NewCause(ie.CauseRequestAccepted)), vNodeIDIE(c.node), vFromIE(ie.NewRecoveryTimeStamp(time.Unix(1600000000, 0)))}
+			ies = append(ies[:drop:drop], ies[drop+1:]...)
+			return (&vMsg{Type: message.MsgTypeAssociationSetupResponse, Seq: d.Seq, IEs: ies}).marshal()
 		}
 		react := func() {
 			for ; handled < len(peer.Inbox); handled++ {
@@ -144,6 +156,8 @@ func c12Run(sc c12Scenario, prefix []int, sigs []string, ready *grpc.ClientConn)
 					peer.Send(c10N4+":8805", respond(d, d.Seq))
 				case 'L':
 					lateAnswer = respond(d, d.Seq)
+				case 'C', 'I', 'R':
+					peer.Send(c10N4+":8805", respondWithout(d, strings.IndexByte("CIR", act)))
 				}
 			}
 		}
@@ -399,6 +413,10 @@ func TestVerifC12(t *testing.T) {
 				if len(sc) > 0 && sc[len(sc)-1] == 'A' {
 					continue // trailing A is the default reaction
 				}
+				scs = append(scs, c12Scenario{Mode: mode, Retries: n, Script: sc})
+			}
+			// responses that lack a mandatory IE (C Cause, I Node ID, R Recovery Time Stamp): crash-freedom and liveness of the reader
+			for _, sc := range []string{"C", "I", "R", "SC", "SI", "SR", "CA", "WC"} {
 				scs = append(scs, c12Scenario{Mode: mode, Retries: n, Script: sc})
 			}
 			for _, ph := range []string{"early", "t3", "t6", "t11"} {
